@@ -53,8 +53,8 @@ tags: dated
 let: num = extract("#(\\d+)")
 let: tail = substring(0, 6)
 let: hits2 = [r for r in orders if r.item == num]
-match: num == "123" or tail == "Charli"
-tags: numbered, {trim()}
+match: num == "123"
+tags: numbered, {tail}
 '''
 R2 = '''# rules two: same rule names and expression texts, different meaning
 big = amount > 400
@@ -196,6 +196,27 @@ DATA_SOURCES_ALT = {'orders': [{'item': 'Paperback', 'amount': 30.0, 'when': 'n/
 
 def _ds(t):
     return DATA_SOURCES_ALT if t.get('ds') == 'alt' else DATA_SOURCES
+
+
+# One run of a command hands the SAME supplemental-data object to every classification (cmd_run loads it once): the harness does
+# too - one live object per data set and process, compared with the pristine constant after every call (and replaced if a call
+# changed it)
+_LIVE_DS = {}
+
+
+def _live_ds(t):
+    key = 'alt' if t.get('ds') == 'alt' else 'std'
+    if key not in _LIVE_DS:
+        _LIVE_DS[key] = copy.deepcopy(_ds(t))
+    return _LIVE_DS[key]
+
+
+def _ds_intact(t):
+    key = 'alt' if t.get('ds') == 'alt' else 'std'
+    ok = _LIVE_DS.get(key) == _ds(t)
+    if not ok:
+        _LIVE_DS[key] = copy.deepcopy(_ds(t))
+    return ok
 EXPRS = {
     'e1': 'contains("ALFA") and amount > 20',
     'e2': 'regex("ch.rlie") or extract("#(\\\\d+)") == "123"',
@@ -232,14 +253,14 @@ def _classify(rules, transforms, tname):
     from tally.merchant_utils import normalize_merchant
     t = TXNS[tname]
     field = copy.deepcopy(t['field'])
-    ds = copy.deepcopy(_ds(t))
+    ds = _live_ds(t)
     rules_before = copy.deepcopy([tuple(r[:4]) + (list(r[6]) if len(r) > 6 else None,) for r in rules])
     r = normalize_merchant(t['description'], rules, amount=t['amount'], txn_date=t['date'], field=field,
                            data_source=t['source'], transforms=transforms, location=t['location'], data_sources=ds)
     mi = r[3] or {}
     obs = [r[0], r[1], r[2], sorted(mi.get('tags', [])), json.dumps(mi.get('extra_fields', {}), sort_keys=True, default=str)]
     mutated = []
-    if ds != _ds(t):
+    if not _ds_intact(t):
         mutated.append('data_sources')
     if rules_before != [tuple(r[:4]) + (list(r[6]) if len(r) > 6 else None,) for r in rules]:
         mutated.append('rules')
@@ -288,7 +309,7 @@ def _obj_new():
 def _obj_match(eng, tname):
     t = dict(TXNS[tname])
     t['field'] = copy.deepcopy(t['field'])
-    dsrc = copy.deepcopy(_ds(t))
+    dsrc = _live_ds(t)
     t.pop('ds', None)
     r = eng.match(t, data_sources=dsrc)
     return [r.merchant, r.category, r.subcategory, sorted(r.tags), json.dumps(r.extra_fields, sort_keys=True, default=str)]
